@@ -70,8 +70,10 @@ def coq_ev(c):
         return "EPollConnect %d" % c[1]
     if n == "cancel":
         return "ECancel %d" % c[1]
-    if n == "accept":
+    if n in ("accept", "accept_w"):
         return "EAccept %d %d" % (c[1], c[2])
+    if n == "woken":
+        return "EAddrs 4294967295"         # wake-up delivery is outside the model: a no-op there (no such slot)
     if n == "write":
         return "EWrite %d %s" % (c[1], coq_list(c[2]))
     if n == "read":
@@ -152,7 +154,7 @@ def enc_obs(cmd, o):
         return [[0] + o["local"]] if r == "ok" else _err(r)
     if n in ("connect", "poll_connect"):
         return [[0] + _addr(o["a"]["local"]) + _addr(o["a"]["peer"])] if r == "ok" else _err(r)
-    if n == "accept":
+    if n in ("accept", "accept_w"):
         return [[0] + o["from"] + _addr(o["a"]["local"]) + _addr(o["a"]["peer"])] if r == "ok" else _err(r)
     if n in ("write", "udp_send", "udp_send_c"):
         return [[0, o["n"]]] if r == "ok" else _err(r)
@@ -731,6 +733,50 @@ def blocked_writer_cases():
         sc.add(["read", x, 16], ["read", y, 16], ["rows", 0], ["rows", 1], ["netstat", 0], ["netstat", 1])
         out.append({"cfg": cfg, "script": sc.s, "flavour": "blocked_writer",
                     "plan": {"w": x, "r": y, "both": True, "fair_from": 0, "drops": 0, "ls": ls}})
+    return out
+
+
+def accept_waker_cases():
+    """Deterministic family (always emitted, C13): two or three (simulated) tasks call accept() on one listener, each
+    with its own waker; the earlier ones abandon it (never poll again); then connections arrive.  Once a connection
+    sits in the ready queue the waker of the LIVE acceptor must have been woken, and its next poll returns the
+    connection, once.  Loopback and two hosts; several rounds on one listener (backlog 1)."""
+    out = []
+    for (loop, ntasks, rounds, v6) in [(True, 2, 1, False), (False, 2, 2, False), (False, 3, 2, True), (True, 3, 3, False)]:
+        cfg = full_cfg({"backlog": 1, "send_cap": 64, "recv_cap": 64, "v6": v6})
+        sc = Script()
+        lh = 0 if loop else 1
+        ls = sc.slot()
+        sc.add(["listen", ls, lh, 1 if loop else 3, 80])
+        tid = 0
+        handles = [ls]
+        for r in range(rounds):
+            live = None
+            ns = sc.slot()
+            for t in range(ntasks):
+                tid += 1
+                sc.add(["accept_w", ls, ns, tid])          # all park; only the last one stays interested
+                live = tid
+            cs = sc.slot()
+            sc.add(["connect", cs, 0, 1 if loop else 3, 80])
+            if loop:
+                sc.add(E, ["poll_connect", cs])
+            else:
+                sc.clean(3, 2)
+                sc.add(["poll_connect", cs])
+            sc.add(["netstat", lh], ["woken", live], ["accept_w", ls, ns, live], ["netstat", lh])
+            spare = sc.slot()
+            sc.add(["accept", ls, spare])                    # nothing else queued
+            handles += [ns, cs, spare]
+        for h_ in handles[1:] + [ls]:
+            sc.add(["close", h_])
+        for _ in range(4):
+            sc.add(E, ["flush"])
+        sc.add(["counts", 0], ["counts", 1], ["rows", 0], ["rows", 1])
+        fin = sc.slot()
+        sc.add(["listen", fin, lh, 1 if loop else 3, 80], ["counts", lh])
+        out.append({"cfg": cfg, "script": sc.s, "flavour": "accept_wakers",
+                    "plan": {"closed_all": True, "settled": True, "port": 80, "final_listen": fin}})
     return out
 
 
